@@ -189,7 +189,9 @@ func (f *c12Ref) access(peer netip.Addr, xff []string) (verdict, why string) {
 	}
 	if why == "" {
 		for _, e := range c12SplitXFF(xff) {
-			if e.Zoned && f.rejects(e.Addr) {
+			if (e.Zoned && f.rejects(e.Addr)) || (!e.Zoned && !e.Clean) {
+				// an element that is not a plain address is skipped when looking for a reason to refuse
+				// (narrow reading); whether its presence alone may cause a refusal is not demanded either
 				ambiguous = true
 			}
 			if e.Clean && f.rejects(e.Addr) {
